@@ -9,7 +9,8 @@ RULE = ("Hypothesis-generated graph cases: 1-8 (thorough 12) tasks of all four k
         "spellings), cache states, --again, --jobs absent/1..5, free parallelizable flags, outcome maps, and "
         "an integer schedule tape that chooses which running children exit at every scheduling point. "
         "Non-trivial = >=2 executed tasks related by a dependency AND (the tape-made completion order differs "
-        "from spawn order OR >=2 task processes were in flight at once). Distinct = SHA-1 of case JSON.")
+        "from spawn order OR >=2 task processes were in flight at once). Distinct = SHA-1 of case JSON."
+        " A quarter of the cases come from an experiment-heavy generator in which every second experiment is cached (chains of pruned tasks with shortcut edges); the same task name may occur in different packages.")
 ASSUMPTIONS = ["virtual time: order is the order of events in the kernel's log (any real completion order is "
                "producible by a tape)", "group tasks have no command/step of their own and are only checked as dependencies"]
 ESSENTIAL = ["two_paths", "shortcut_dep_listed_after_sibling", "shortcut_dep_listed_before_sibling",
